@@ -156,6 +156,41 @@ def literal_tie(ctx, n_numbers: int):
             ctx.violation("prettify:literal:does-not-round-trip", f"literal {v!r} renders as {txt!r} which parses to something else",
                           {"script": f"x := {txt};", "kind": "literal"})
     ctx.cov["other_literals"] = len(ints) + len(strs) + 3
+    identifier_tie(ctx)
+
+
+def identifier_tie(ctx):
+    """K: Codec.render_ident_impl (vm_compute, with the real reserved-word list) = ASTString._format_reserved_word, and the rendered
+    name is read back by the real lexer/constructor as the same name"""
+    from vtlengine.AST.ASTString import RESERVED_WORDS, _format_reserved_word
+    from vtlengine.API import create_ast
+    rng = ctx.rng
+    reserved = sorted(RESERVED_WORDS)
+    names = rng.sample(reserved, 40) + ["true", "false", "Me_1", "DS_1", "a b", "DS 1", "x-y", "1A", "1", "12.5", "A.B", "_x", "a", "Z9_", "é",
+                                        "x y z", " lead", "with,comma", "semi;colon", "a+b", "1_", "9z.w", "null", "'q r'", "'calc'"]
+    names += ["".join(rng.choice("abXY019_. -+") for _ in range(rng.randrange(1, 8))) for _ in range(80)]
+    names = [n for n in dict.fromkeys(names) if ":" not in n and n.strip("'") != "" and "'" not in n.strip("'")]
+    header = G.DEC_HEADER + "Definition RES_ : list bytes := " + "[" + "; ".join(f"of_N {G.coq_bytes(w.encode())}" for w in reserved) + "].\n"
+    res = coq_eval(header, [f"to_N (render_ident_impl RES_ (of_N {G.coq_bytes(n.encode())}))" for n in names], "c24_ident", shard=200)
+    bad, rt_bad = [], []
+    for n, r in zip(names, res):
+        real = _format_reserved_word(n)
+        ctx.count(("ident", n))
+        if G.py_bytes(r).decode("utf-8") != real:
+            bad.append((n, G.py_bytes(r).decode("utf-8"), real))
+        if "'" in n:
+            continue
+        try:
+            v = create_ast(f"DS_r := DS_1[calc {real} := 1];").children[0].right.children[0].left.value
+        except Exception as e:  # noqa
+            v = f"{type(e).__name__}"
+        if v != n:
+            rt_bad.append((n, real, v))
+    ctx.oblige(f"K: render_ident_impl = _format_reserved_word on {len(names)} names ({len(reserved)} reserved words in the list)", not bad, str(bad[:4]))
+    for n, real, v in rt_bad[:5]:
+        ctx.violation("prettify:identifier:does-not-round-trip", f"the name {n!r} is rendered {real!r}, which reads back as {v!r}",
+                      {"script": f"DS_r := DS_1[calc {real} := 1];", "kind": "identifier"})
+    ctx.cov["identifier_names"] = len(names)
 
 
 # ------------------------------------------------------------------------------------------------ S: scripts
